@@ -18,6 +18,7 @@ package main
 
 import (
 	"fmt"
+	"go/token"
 	"go/types"
 	"sort"
 	"strings"
@@ -358,6 +359,7 @@ func (r *rwRT) ruleOptEta() {
 		objs := map[string]AV{}    // ident ref -> object
 		recvOf := map[string]AV{}  // sig name -> recv
 		tparams := map[string]int64{}
+		namedOf := map[string]string{} // ident ref -> qualified name of its named type
 		mkObj := func(kind, key string, recv bool, generic int64) AV {
 			o := Dyn{T: tptr(kind), V: Sym{Name: "obj:" + key, NN: true, Uniq: true}}
 			if kind == "Func" {
@@ -435,6 +437,13 @@ func (r *rwRT) ruleOptEta() {
 				_, x = r.heapNode(st, "CallExpr", map[string]AV{"Fun": exprLeaf(r, "g")})
 			} else {
 				x = ident(rn, mkObj("Var", "recvvar:"+rn, false, 0))
+				// static type of the receiver variable: the runtime's iterator interface for the
+				// iterator scenarios (user-declared and generated alike), a user type otherwise
+				if rn == "s" {
+					namedOf[unwrap(x).String()] = "user.T"
+				} else {
+					namedOf[unwrap(x).String()] = pathSeq + ".Iterator"
+				}
 			}
 			_, fun = r.heapNode(st, "SelectorExpr", map[string]AV{"X": x, "Sel": unwrap(ident("M", mkObj("Func", "T.M", true, 0)))})
 		case sc.fun == "field":
@@ -486,6 +495,9 @@ func (r *rwRT) ruleOptEta() {
 				return []Answer{{Ret: []AV{Nil{}}, NoEvent: true}}
 			case "TypeOf":
 				a := cc.Args[len(cc.Args)-1]
+				if q, ok := namedOf[unwrap(a).String()]; ok {
+					return []Answer{{Ret: []AV{Dyn{T: tptr("Named"), V: Sym{Name: "named:" + q, NN: true}}}, NoEvent: true}}
+				}
 				return []Answer{{Ret: []AV{Dyn{T: tptr("Signature"), V: Sym{Name: "type:" + unwrap(a).String(), NN: true}}}, NoEvent: true}}
 			case "Identical":
 				return []Answer{{Ret: []AV{mkBool(same)}, NoEvent: true}}
@@ -497,6 +509,35 @@ func (r *rwRT) ruleOptEta() {
 					}
 					if sy, ok := a0.(Sym); ok && strings.HasPrefix(sy.Name, "obj:") {
 						return []Answer{{Ret: []AV{Dyn{T: tptr("Signature"), V: Sym{Name: "sig:" + strings.TrimPrefix(sy.Name, "obj:"), NN: true}}}, NoEvent: true}}
+					}
+				}
+			case "Obj", "Origin":
+				if len(cc.Args) == 1 {
+					if sy, ok := unwrap(cc.Args[0]).(Sym); ok && strings.HasPrefix(sy.Name, "named:") {
+						if cc.Fn.Name() == "Origin" {
+							return []Answer{{Ret: []AV{cc.Args[0]}, NoEvent: true}}
+						}
+						return []Answer{{Ret: []AV{Dyn{T: tptr("TypeName"), V: Sym{Name: "tn:" + strings.TrimPrefix(sy.Name, "named:"), NN: true}}}, NoEvent: true}}
+					}
+				}
+			case "Pkg":
+				if len(cc.Args) == 1 {
+					if sy, ok := baseSym(cc.Args[0]); ok && strings.HasPrefix(sy.Name, "tn:") {
+						q := strings.TrimPrefix(sy.Name, "tn:")
+						return []Answer{{Ret: []AV{Sym{Name: "tpkg:" + q[:strings.LastIndex(q, ".")], NN: true}}, NoEvent: true}}
+					}
+				}
+			case "Path":
+				if len(cc.Args) == 1 {
+					if sy, ok := unwrap(cc.Args[0]).(Sym); ok && strings.HasPrefix(sy.Name, "tpkg:") {
+						return []Answer{{Ret: []AV{mkString(strings.TrimPrefix(sy.Name, "tpkg:"))}, NoEvent: true}}
+					}
+				}
+			case "Name":
+				if len(cc.Args) == 1 {
+					if sy, ok := baseSym(cc.Args[0]); ok && strings.HasPrefix(sy.Name, "tn:") {
+						q := strings.TrimPrefix(sy.Name, "tn:")
+						return []Answer{{Ret: []AV{mkString(q[strings.LastIndex(q, ".")+1:])}, NoEvent: true}}
 					}
 				}
 			case "Recv":
@@ -564,7 +605,17 @@ func (r *rwRT) ruleOptEta() {
 			}
 			c.ok("OPT.ETA", construct, pos, fmt.Sprintf("reduction is meaning-preserving here (reduced: %v)", anyReplace && allReplace))
 		default:
-			c.check(!anyReplace, "OPT.ETA", construct, pos, "closure is kept", "the closure is replaced by its callee although that changes its meaning or does not build: "+sc.name)
+			var tr []string
+			for _, o := range outs {
+				if !o.Panicked && len(cursorEdits(o.St, len(st.Events))) > 0 {
+					tr = o.St.TraceStrings()
+					if len(tr) > 25 {
+						tr = tr[len(tr)-25:]
+					}
+					break
+				}
+			}
+			c.check(!anyReplace, "OPT.ETA", construct, pos, "closure is kept", "the closure is replaced by its callee although that changes its meaning or does not build: "+sc.name, tr...)
 		}
 	}
 	if replaced == 0 {
@@ -649,4 +700,98 @@ func (r *rwRT) ruleOptOrder() {
 			c.check(!strings.Contains(got, "print"), "OPT.ORDER", "file not using seq", pos, "a rewritten file that does not use seq is not written to the destination (e.g. a co file that only blank-imports the API)", "a file that does not use seq is printed: an extra generated file appears in the package: "+got)
 		}
 	}
+}
+
+// ------------------------------------------------------------------ OPT.RULES
+//
+// Inventory: the rewrite rules the optimiser applies are exactly the ones this
+// check analyses. Every call of ASTMatcher.Match reachable from
+// optimizeAllFiles is located (static callees and closures, resolved through
+// SSA); the analysed ones are the single Match of optimizeDelayCall
+// (OPT.WHITELIST/BINDLIT) and the single Match of etaReduction (OPT.ETA). Any
+// further reachable Match call is a rewrite of the generated code that no rule
+// vouches for: reported as undecided, never assumed harmless.
+func (r *rwRT) ruleOptRules() {
+	c := r.c
+	c.min("OPT.RULES", 2)
+	root := r.method("optimizer", "optimizeAllFiles")
+	c.fn(relName(root))
+	counts := map[string]int{}
+	where := map[string]token.Pos{}
+	seen := map[*ssa.Function]bool{}
+	var walk func(fn *ssa.Function, owner string)
+	walk = func(fn *ssa.Function, owner string) {
+		fn = bodyOf(fn)
+		if fn == nil || seen[fn] {
+			return
+		}
+		seen[fn] = true
+		if fn.Parent() == nil {
+			owner = fn.Name()
+		}
+		for _, b := range fn.Blocks {
+			for _, ins := range b.Instrs {
+				if mc, ok := ins.(*ssa.MakeClosure); ok {
+					if f, ok := mc.Fn.(*ssa.Function); ok {
+						walk(f, owner)
+					}
+				}
+				call, ok := ins.(ssa.CallInstruction)
+				if !ok {
+					continue
+				}
+				callee := call.Common().StaticCallee()
+				if callee == nil {
+					continue
+				}
+				if callee.Name() == "Match" && strings.Contains(fnPkgPath(callee), "go-ast-matcher") {
+					counts[owner]++
+					where[owner] = ins.Pos()
+					continue
+				}
+				if inRw(callee) {
+					walk(callee, owner)
+				}
+			}
+		}
+	}
+	walk(root, "")
+	analysed := map[string]string{"optimizeDelayCall": "OPT.WHITELIST / OPT.BINDLIT", "etaReduction": "OPT.ETA"}
+	var owners []string
+	for o := range counts {
+		owners = append(owners, o)
+	}
+	sort.Strings(owners)
+	for _, o := range owners {
+		rule, known := analysed[o]
+		pos := r.w.Pos(where[o])
+		switch {
+		case known && counts[o] == 1:
+			c.ok("OPT.RULES", "rewrite rule of "+o, pos, "the single Match call of "+o+" is the one analysed by "+rule)
+		case known:
+			c.und("OPT.RULES", "rewrite rule of "+o, pos, fmt.Sprintf("%s applies %d rewrite rules (Match calls); %s analyses one: an additional rule rewrites the generated code without being vouched for", o, counts[o], rule))
+		default:
+			c.und("OPT.RULES", "rewrite rule of "+o, pos, fmt.Sprintf("the optimiser reaches a rewrite rule in %s (%d Match call(s)) that no rule of this check analyses", o, counts[o]))
+		}
+	}
+	for o, rule := range analysed {
+		if counts[o] == 0 {
+			c.und("OPT.RULES", "rewrite rule of "+o, r.w.FnPos(root), "the pass "+o+" ("+rule+") is not reachable from optimizeAllFiles or applies no rewrite rule")
+		}
+	}
+}
+
+// baseSym: the symbol a receiver denotes, looking through the address of an embedded field
+// (methods promoted from an embedded struct receive &x.embedded).
+func baseSym(a AV) (Sym, bool) {
+	a = unwrap(a)
+	for {
+		fr, ok := a.(FieldRef)
+		if !ok {
+			break
+		}
+		a = unwrap(fr.Base)
+	}
+	sy, ok := a.(Sym)
+	return sy, ok
 }
